@@ -77,15 +77,16 @@ def run(shard, rec):
     def micro_ext(q_desc):
         async def program(mpc, pid):
             secfld = mpc.SecFld(**q_desc)
-            xs = [mpc.input(secfld(3 + i + pid), senders=i % len(mpc.parties)) for i in range(3)]
-            ys = mpc.input([secfld(7 + pid), secfld(11), secfld(1)], senders=0)
+            q_ = q_desc['order']
+            xs = [mpc.input(secfld((3 + i + pid) % q_), senders=i % len(mpc.parties)) for i in range(3)]
+            ys = mpc.input([secfld((7 + pid) % q_), secfld(11 % q_), secfld(1)], senders=0)
             z = mpc.schur_prod(xs, ys)
             w_ = xs[0] * xs[1] + z[2]
             return [int(a) for a in await mpc.output(z + [w_])]
         return program
 
     for pi in range(shard['programs']):
-        kind = ('int', 'ext', 'fxp', 'int', 'ext2', 'switch')[pi % 6]
+        kind = ('int', 'ext', 'fxp', 'int', 'ext2', 'switch', 'small')[pi % 7]
         sseed = rng.randrange(1 << 30)
         policy = rng.choice(sim.POLICIES)
         case = [shard['name'], pi, kind, sseed]
@@ -103,6 +104,11 @@ def run(shard, rec):
             # threshold changed at run time through the public setter between two phases (effective without PRSS): dealings must follow the current threshold
             spec = {'values': [rng.randint(1, 9) for _ in range(4)]}
             program = progs.threshold_switch_program(tuple(spec['values']))[0]
+        elif kind == 'small':
+            # secure fields with no more elements than there are parties (the type must share over a larger field: party q would be handed f(q) = f(0))
+            qs = [q_ for q_ in (2, 3, 5, 7) if q_ <= m]          # prime orders: lifting of extension fields such as GF(4) is refused by SecFld (documented TODO)
+            spec = {'order': qs[(pi // 7) % len(qs)] if (pi // 7) % 3 else max(qs)}
+            program = micro_ext(dict(spec))
         elif kind == 'ext':
             spec = {'order': 2 ** 8}
             program = micro_ext({'order': 2 ** 8})
@@ -135,6 +141,20 @@ def run(shard, rec):
             rec.count('calls_checked')
             if d['t'] != d['thr'] or d['m'] != m:
                 rec.violation(f'{what}: random_split called with t={d["t"]}, m={d["m"]} but the runtime has threshold {d["thr"]}, {m} parties', dict(feats, mechanism='wrong-threshold-arg'), wit, case=case)
+                continue
+            if t >= 1 and q <= m:
+                rec.violation(f'{what}: dealing over a field of {q} elements among {m} parties: the evaluation point of party {q} is 0, its share is the secret', dict(feats, mechanism='field-not-larger-than-m'), wit, case=case)
+                continue
+            if kind == 'small':
+                rec.count('small_field_dealings')
+            if q <= m:
+                # t = 0: every share is the secret itself (nothing to hide from a coalition of nobody); the evaluation points need not be distinct
+                rec.count('dealings_checked', n)
+                for h in range(n):
+                    sec = d['secrets'][h]
+                    sv = ref.elt(F, sec if isinstance(sec, field) else field(sec))
+                    if any(ref.elt(F, field(d['shares'][i][h])) != sv for i in range(m)):
+                        rec.violation(f'{what}: threshold 0 but the shares of secret {h} are not all equal to it', dict(feats, mechanism='wrong-secret'), wit, case=case)
                 continue
             draws = d['draws']
             draws_match = len(draws) == t * n and all(x[1] == 'randbelow' and x[2] == q for x in draws)
